@@ -572,26 +572,44 @@ func buildWire(cb combo, recs []rawRecord, wire []wireRec, hsFin rawRecord, rnd 
 }
 
 // calibration: plaintext bytes carried by each of the first n records of a combo (identity run)
-var calib = map[string][]int{}
+var (
+	calibMu sync.Mutex
+	calib   = map[string]*calibEntry{}
+)
+
+type calibEntry struct {
+	once  sync.Once
+	sizes []int
+	err   error
+}
 
 func calibrate(cb combo, key string, n int, seed int64) ([]int, error) {
-	if c, ok := calib[fmt.Sprintf("%s#%d", key, n)]; ok {
-		return c, nil
+	k := fmt.Sprintf("%s#%d", key, n)
+	calibMu.Lock()
+	e := calib[k]
+	if e == nil {
+		e = &calibEntry{}
+		calib[k] = e
 	}
-	rnd := mrand.New(mrand.NewSource(1))
-	obs, sent, _, err := runWire(cb, n, nil, rnd, seed)
-	if err != nil {
-		return nil, err
-	}
-	if !obs.PrefixOK || len(obs.Reads) != n {
-		return nil, fmt.Errorf("untampered stream: %d reads for %d records, prefix_ok=%v, err=%s (delivered %d of %d bytes)",
-			len(obs.Reads), n, obs.PrefixOK, obs.Err, obs.Delivered, len(sent))
-	}
-	if obs.Class != "eof" && obs.Class != "ueof" && obs.Class != "closed" {
-		return nil, fmt.Errorf("untampered stream ended with %q", obs.Err)
-	}
-	calib[fmt.Sprintf("%s#%d", key, n)] = obs.Reads
-	return obs.Reads, nil
+	calibMu.Unlock()
+	e.once.Do(func() {
+		rnd := mrand.New(mrand.NewSource(1))
+		obs, sent, _, err := runWire(cb, n, nil, rnd, seed)
+		switch {
+		case err != nil:
+			e.err = err
+		case obs.Panic != "":
+			e.err = fmt.Errorf("untampered stream: %s", obs.Panic)
+		case !obs.PrefixOK || len(obs.Reads) != n:
+			e.err = fmt.Errorf("untampered stream: %d reads for %d records, prefix_ok=%v, err=%s (delivered %d of %d bytes)",
+				len(obs.Reads), n, obs.PrefixOK, obs.Err, obs.Delivered, len(sent))
+		case obs.Class != "eof" && obs.Class != "ueof" && obs.Class != "closed":
+			e.err = fmt.Errorf("untampered stream ended with %q", obs.Err)
+		default:
+			e.sizes = obs.Reads
+		}
+	})
+	return e.sizes, e.err
 }
 
 // what the mechanism model's error class may look like on the real connections (diagnostic only)
@@ -607,6 +625,18 @@ var mClasses = map[string][]string{
 func recordRun() {
 	seed := vh.Seed()
 	count := 0
+	// the cases are independent connections: run them on a few workers
+	work := make(chan recCase, 64)
+	var wg sync.WaitGroup
+	for w := 0; w < 6; w++ {
+		wg.Add(1)
+		go func() {
+			defer wg.Done()
+			for c := range work {
+				recordOne(c, seed)
+			}
+		}()
+	}
 	vh.EachCase(func(line []byte) {
 		var c recCase
 		if err := json.Unmarshal(line, &c); err != nil {
@@ -615,6 +645,15 @@ func recordRun() {
 			os.Exit(2)
 		}
 		count++
+		work <- c
+	})
+	close(work)
+	wg.Wait()
+	vh.Emit(map[string]interface{}{"summary": true, "cases": count})
+}
+
+func recordOne(c recCase, seed int64) {
+	{
 		cb, err := parseCombo(c.Combo)
 		if err != nil {
 			vh.Emit(map[string]interface{}{"id": c.ID, "machinery": err.Error()})
@@ -623,18 +662,33 @@ func recordRun() {
 		var sizes []int
 		var obs runObs
 		var runErr error
-		ptxt, fin := vh.GuardTimeout(60*time.Second, func() {
-			sizes, runErr = calibrate(cb, c.Combo, c.N, seed)
-			if runErr != nil {
-				return
+		attempt := func(limit time.Duration) (string, bool) {
+			var sz []int
+			var ob runObs
+			var re error
+			p, f := vh.GuardTimeout(limit, func() {
+				sz, re = calibrate(cb, c.Combo, c.N, seed)
+				if re != nil {
+					return
+				}
+				rs := c.RSeed
+				if rs == 0 {
+					rs = seed*1000003 + int64(c.ID)
+				}
+				rnd := mrand.New(mrand.NewSource(rs))
+				ob, _, _, re = runWire(cb, c.N, c.Wire, rnd, seed)
+			})
+			if f {
+				sizes, obs, runErr = sz, ob, re
 			}
-			rs := c.RSeed
-			if rs == 0 {
-				rs = seed*1000003 + int64(c.ID)
-			}
-			rnd := mrand.New(mrand.NewSource(rs))
-			obs, _, _, runErr = runWire(cb, c.N, c.Wire, rnd, seed)
-		})
+			return p, f
+		}
+		// a case is a few milliseconds of work; the watchdog is generous and a first expiry (an
+		// overloaded machine) is retried once with a much longer limit before it counts as a hang
+		ptxt, fin := attempt(60 * time.Second)
+		if !fin {
+			ptxt, fin = attempt(300 * time.Second)
+		}
 		shape := shapeSig(c)
 		res := vh.Result{ID: c.ID, Obs: obs}
 		switch {
@@ -645,7 +699,7 @@ func recordRun() {
 		case runErr == nil && obs.Panic != "":
 			res.Sig, res.Detail = "panic/"+c.Combo+"/"+shape, obs.Panic
 		case !fin:
-			res.Sig, res.Detail = "hang/"+c.Combo+"/"+shape, "no result within 60 s"
+			res.Sig, res.Detail = "hang/"+c.Combo+"/"+shape, "no result within 60 s and, retried, within 300 s"
 		case runErr != nil:
 			vh.Emit(map[string]interface{}{"id": c.ID, "machinery": c.Combo + ": " + runErr.Error()})
 			return
@@ -691,8 +745,7 @@ func recordRun() {
 			res.Case = c
 		}
 		vh.Emit(res)
-	})
-	vh.Emit(map[string]interface{}{"summary": true, "cases": count})
+	}
 }
 
 // canonical shape of the first non-authentic wire element (signature)
